@@ -34,6 +34,22 @@ NextTol == \/ \E k \in {-2000, -68, -67, -1, 0, 1, 67, 68, 2000} :
                 vec' = Ev("evaluate", [inst |-> TolInst, st |-> << <<1, Zero>>, <<2, IF side = "hi" THEN RAdd(One, G(d)) ELSE G(d)>>, <<3, R(1)>> >>])
            \/ \E y \in {R(-1), R(0), R(3), R(4), <<1,2>>} :
                 vec' = Ev("evaluate", [inst |-> TolInst, st |-> << <<1, Zero>>, <<2, Zero>>, <<3, y>> >>])
+\* ---- C05 / C06: values EXACTLY at the tolerances (tokens <<+-1,-6>> = +-1e-6, <<+-1,-7>> = +-1e-7, see Rat.tla) -------------
+T6 == <<1, -6>>  NT6 == <<-1, -6>>  T7 == <<1, -7>>  NT7 == <<-1, -7>>
+TokInst(lo3, hi3) == Inst("min", << V(1, "continuous", <<>>), V(2, "continuous", <<>>), V(3, "continuous", B(lo3, hi3)) >>,
+                L(<< T(2, R(1)) >>, Zero),
+                << C(10, "eq", L(<< T(1, T6) >>, Zero)), C(11, "le", L(<< T(1, T6) >>, Zero)) >>,
+                << Rm(C(12, "le", L(<< T(1, NT6) >>, Zero)), "r"), Rm(C(13, "eq", P(<< Mo(<<1>>, NT6) >>)), "r") >>, <<>>)
+NextTolExact == \/ \E x \in {R(1), R(-1), R(0)} : vec' = Ev("evaluate", [inst |-> TokInst(Zero, R(5)), st |-> << <<1, x>>, <<2, R(3)>>, <<3, R(1)>> >>])
+                \/ \E x3 \in {NT7, T7, Zero} : \E side \in {"lo", "hi"} :
+                      vec' = Ev("evaluate", [inst |-> IF side = "lo" THEN TokInst(Zero, PInf) ELSE TokInst(NInf, Zero), st |-> << <<1, R(0)>>, <<2, R(3)>>, <<3, x3>> >>])
+                \/ \E grouped \in BOOLEAN :
+                      vec' = Ev("evaluate_samples", [inst |-> TokInst(Zero, R(5)),
+                          samples |-> IF grouped THEN << [state |-> << << <<1, R(1)>>, <<2, R(3)>>, <<3, R(1)>> >> >>, ids |-> <<0, 4>>],
+                                                         [state |-> << << <<1, R(-1)>>, <<2, R(3)>>, <<3, R(1)>> >> >>, ids |-> <<2>>] >>
+                                      ELSE << [state |-> << << <<1, R(1)>>, <<2, R(3)>>, <<3, R(1)>> >> >>, ids |-> <<0>>],
+                                              [state |-> << << <<1, R(-1)>>, <<2, R(3)>>, <<3, R(1)>> >> >>, ids |-> <<2>>],
+                                              [state |-> << << <<1, R(0)>>, <<2, R(3)>>, <<3, R(1)>> >> >>, ids |-> <<7>>] >>])
 \* ---- C05: irrelevant variables of every kind and bound shape are reported nearest to zero -----------------------
 BoundShapes == { <<>>, B(R(-2), R(3)), B(R(1), R(4)), B(R(-5), R(-2)), B(R(2), R(2)), B(NInf, R(-1)), B(R(1), PInf), B(NInf, PInf), B(Zero, PInf), B(<<1,2>>, <<3,2>>) }
 NextIrrelevant == \E k \in {"continuous", "integer", "binary"}, b \in BoundShapes, given \in BOOLEAN :
@@ -55,6 +71,9 @@ NextDeps == \E order \in BOOLEAN, x \in {R(0), R(1), <<1,2>>} : vec' = Ev("evalu
 EncInst(kind, b) == Inst("min", << V(1, "continuous", <<>>), V(4, kind, b), V(9, "binary", <<>>) >>, L(<< T(4, R(1)) >>, Zero), <<>>, <<>>, <<>>)
 NextLogEncode ==
   \/ \E l2 \in -16..16, u2 \in -16..16 : l2 <= u2 /\ vec' = Ev("log_encode", [inst |-> EncInst("integer", B(Mk(l2, 2), Mk(u2, 2))), vid |-> 4])
+  \* quarters and tenths: the fractional parts of the two ends vary independently (lower + upper slack may exceed 1)
+  \/ \E l4 \in -9..9, u4 \in -9..40 : l4 <= u4 /\ (l4 % 2 # 0 \/ u4 % 2 # 0) /\ vec' = Ev("log_encode", [inst |-> EncInst("integer", B(Mk(l4, 4), Mk(u4, 4))), vid |-> 4])
+  \/ \E l \in {Mk(1, 10), Mk(-19, 10), Mk(9, 10)}, n \in 0..17 : vec' = Ev("log_encode", [inst |-> EncInst("integer", B(l, RAdd(l, Mk(n * 10 + 8, 10)))), vid |-> 4])
   \/ \E w \in 1..MaxWidth, off \in {0, -1048576, 1048576} :
         vec' = Ev("log_encode", [inst |-> EncInst("integer", B(R(IF off = 1048576 THEN off - w ELSE off), R(IF off = 1048576 THEN off ELSE off + w))), vid |-> 4])
   \/ \E bad \in {"unknown", "continuous", "binary", "nobound", "inf_hi", "inf_lo", "inf_both", "empty"} :
@@ -93,7 +112,11 @@ NextSamples == \E n \in 1..3 : \E asg \in [1..n -> 1..3], grouped \in BOOLEAN :
 Pairs(f) == [ k \in DOMAIN SortSeq(SetToSeq(DOMAIN f), LAMBDA x, y : x < y) |-> LET s == SortSeq(SetToSeq(DOMAIN f), LAMBDA x, y : x < y)[k] IN <<s, f[s]>> ]
 NextBest == \E S \in (SUBSET {0, 3, 7}) \ {{}} : \E objs \in [S -> {R(0), R(1)}], rel \in [S -> BOOLEAN], sense \in {"min", "max"}, legacy \in BOOLEAN, bytes \in BOOLEAN :
               \E all \in { a \in [S -> BOOLEAN] : \A s \in S : a[s] => rel[s] } :
-    LET sv == [ k \in DOMAIN Pairs(objs) |-> [value |-> Pairs(objs)[k][2], ids |-> << Pairs(objs)[k][1] >>] ] IN
+    \E groupedSv \in BOOLEAN :
+    LET single == [ k \in DOMAIN Pairs(objs) |-> [value |-> Pairs(objs)[k][2], ids |-> << Pairs(objs)[k][1] >>] ]
+        vals == SortSeq(SetToSeq({ objs[s] : s \in S }), LAMBDA a, b : RLess(a, b))
+        byValue == [ k \in DOMAIN vals |-> [value |-> vals[k], ids |-> SortSeq(SetToSeq({ s \in S : objs[s] = vals[k] }), LAMBDA a, b : a < b)] ]
+        sv == IF groupedSv THEN byValue ELSE single IN
     vec' = Ev("best", [via_bytes |-> bytes,
               ss |-> [objectives |-> <<sv>>, vars |-> <<>>, constraints |-> <<>>, sense |-> sense,
                       feasible |-> IF legacy THEN Pairs(rel) ELSE Pairs(all),
@@ -145,15 +168,30 @@ NextWithParameters == \E a \in {R(0), R(2), <<-1,2>>}, b \in {R(1), R(-3)}, shap
     vec' = Ev("with_parameters", [pinst |-> PInstBase,
               pv |-> CASE shape = "complete" -> << <<50, a>>, <<51, b>> >> [] shape = "extra" -> << <<50, a>>, <<51, b>>, <<90, R(7)>> >>
                        [] shape = "missing50" -> << <<51, b>> >> [] shape = "missing51" -> << <<50, a>> >> [] OTHER -> <<>>])
+\* ---- C18: every kind x bound shape of a used variable, either sense, constant-only constraints, non-contiguous ids ---------
+RtBounds == { <<>>, B(Zero, One), B(Zero, Zero), B(R(-3), R(-1)), B(R(0), R(-0)), B(R(-2), R(5)), B(R(1), PInf), B(NInf, R(2)), B(NInf, R(-2)), B(NInf, Zero), B(NInf, PInf),
+              B(Zero, PInf), B(R(2), R(2)), B(<<1,2>>, <<7,2>>) }
+NextMpsRoundtrip ==
+  \/ \E k \in {"continuous", "integer", "binary"}, b \in RtBounds, sense \in {"min", "max"}, k2 \in {"continuous", "integer"} :
+       (k = "binary" => b \in { <<>>, B(Zero, One), B(Zero, Zero), B(One, One) }) /\
+       vec' = Ev("mps_roundtrip", [inst |-> Inst(sense, << V(14, k, b), V(3, k2, B(R(-1), R(4))), V(8, "integer", <<>>) >>,
+                                                 L(<< T(14, R(2)), T(3, <<-1,2>>) >>, R(3)),
+                                                 << C(21, "le", L(<< T(14, R(1)), T(3, R(1)) >>, R(-4))), C(4, "eq", K(R(0))), C(10, "le", K(R(-1))) >>, <<>>, <<>>)])
+  \/ \E bad \in {"objective", "constraint", "both"} :
+       vec' = Ev("mps_roundtrip", [inst |-> Inst("min", << V(1, "continuous", <<>>), V(2, "integer", B(R(0), R(3))) >>,
+                                                 IF bad \in {"objective", "both"} THEN Q(<<1>>, <<2>>, <<R(1)>>, <<>>) ELSE L(<< T(1, R(1)) >>, Zero),
+                                                 << C(5, "le", L(<< T(2, R(1)) >>, R(-1))),
+                                                    C(17, "eq", IF bad \in {"constraint", "both"} THEN P(<< Mo(<<1, 1, 2>>, R(2)) >>) ELSE L(<< T(1, R(1)) >>, Zero)) >>, <<>>, <<>>)])
 Step(A) == phase = 0 /\ phase' = 1 /\ A
 Init == vec = <<>> /\ phase = 0
-DoEvaluate == Step(NextTol \/ NextIrrelevant \/ NextBinaryBound \/ NextDeps)
+DoEvaluate == Step(NextTol \/ NextTolExact \/ NextIrrelevant \/ NextBinaryBound \/ NextDeps)
 DoLogEncode == Step(NextLogEncode)
 DoHistories == Step(NextHistories)
-DoSamples == Step(NextSamples)
+DoSamples == Step(NextSamples \/ NextTolExact)
 DoBest == Step(NextBest)
 DoQubo == Step(NextQubo)
 DoSlack == Step(NextSlack \/ NextSlackRejects)
+DoMpsRoundtrip == Step(NextMpsRoundtrip)
 DoPenalty == Step(NextPenalty \/ NextWithParameters)
 Emit == phase = 1 => PrintT("VEC " \o ToJson(vec))
 =============================================================================
